@@ -96,6 +96,9 @@ type Unit struct {
 	// written in Go. "*" as the file name applies the substitutions to every non-test .go file
 	// of the unit's package. Every substitution is part of the claim and is listed in the evidence.
 	Rewrite map[string][][2]string `json:"rewrite"`
+	// HugeSlicePhys: slices longer than this many elements are materialised lazily (default 1<<16);
+	// a unit that decodes multi-megabyte arguments raises it
+	HugeSlicePhys int `json:"huge_slice_phys"`
 
 	spec   *Spec
 	params map[string]int
@@ -353,6 +356,11 @@ func defaultNoop(mod string) []string {
 }
 
 func (p *Program) newInterp(spec *Unit, hs *HarnessSpec, tier string, ex *Explorer) *Interp {
+	if spec.HugeSlicePhys > 0 {
+		hugeSlicePhys = spec.HugeSlicePhys
+	} else {
+		hugeSlicePhys = 1 << 16
+	}
 	in := &Interp{prog: p.prog, ex: ex, spec: spec, modPath: p.modPath, mainPkg: p.pkg,
 		noopPkgs: map[string]bool{}, initPkgs: map[string]bool{}, replace: map[string]*ssa.Function{}, replaceAlways: map[string]bool{},
 		methodCache: map[string]*ssa.Function{}, pkgBuilt: map[*ssa.Package]bool{}}
